@@ -1,6 +1,7 @@
 package harness
 
 import (
+	"crypto/sha256"
 	"encoding/json"
 	"fmt"
 	"os"
@@ -239,7 +240,7 @@ func Explore(sc *Scenario, bound int, budget int, stopFirst bool, deadline func(
 	st := Stats{Bound: bound, Outcomes: map[string]int{}, Exhaustive: true, BoundDone: -1}
 	var viols []Violation
 	buckets := map[int][][]int{0: {nil}}
-	seen := map[string]bool{}
+	seen := map[[16]byte]bool{}
 	var onStep func(*vsched.Sched, *X)
 	if keyFn != nil {
 		onStep = func(s *vsched.Sched, x *X) {
@@ -248,11 +249,17 @@ func Explore(sc *Scenario, bound int, budget int, stopFirst bool, deadline func(
 				return
 			}
 			k := keyFn(s, x)
-			if seen[k] {
+			if k == "" {
+				return // no trustworthy key (an object without a stable id): never merge
+			}
+			h := sha256.Sum256([]byte(k))
+			var hk [16]byte
+			copy(hk[:], h[:16])
+			if seen[hk] {
 				s.Prune = true
 				return
 			}
-			seen[k] = true
+			seen[hk] = true
 		}
 	}
 	minBucket := func() int {
